@@ -61,6 +61,10 @@ add('KF-forkserver-concurrent-poll', ['C19'],
     {'method': 'forkserver', 'phase': 'concurrent_pollers'},
     'forkserver Popen.poll is not safe against several parent threads polling one Process: two threads see the sentinel readable, one reads the status, the other gets EOF and overwrites returncode with 255 (even after a successful join); a concurrent is_alive()/exitcode can raise ValueError on the closed sentinel (same code as CPython)')
 
+add('KF-slot-leak-late-result', ['C10'], ['slots_not_all_free_at_quiescence'],
+    {'late_result_after_pool_failure': True, 'send_failed': False, 'lane': 'sim'},
+    'put-lock slot leaked when a job is failed by the pool (hard limit, lost worker) although its result was already on the wire and the same worker goes on to lose a second job: the late result is ignored without releasing (the job left the cache) and the single worker exit releases only one of the two slots')
+
 fixed = json.load(open(here + '/known_fixed.json')) if os.path.exists(here + '/known_fixed.json') else []
 json.dump({'findings': F, 'fixed': fixed}, open(here + '/known_findings.json', 'w'), indent=1)
 print(len(F), 'finding keys;', len(fixed), 'fixed entries')
